@@ -57,6 +57,10 @@ type resolver struct {
 	unresolvedUses []*usesUnresolved
 	loadedModules  map[string]*Module
 	trace          bool
+
+	// submodules already merged into a module ("module submodule"), includes
+	// may repeat or be circular
+	included map[string]struct{}
 }
 
 func (r *resolver) module(y *Module) error {
@@ -202,6 +206,14 @@ func (r *resolver) copyOverIncludes(main *Module, includes []*Include) error {
 		if i.loader == nil {
 			return errors.New("no module loader defined")
 		}
+		key := main.ident + " " + i.subName
+		if _, done := r.included[key]; done {
+			continue
+		}
+		if r.included == nil {
+			r.included = make(map[string]struct{})
+		}
+		r.included[key] = struct{}{}
 		var err error
 		var rev string
 		if i.rev != nil {
